@@ -65,6 +65,30 @@ def inv_norm(J):
     return ninv, nj * ninv
 
 
+def planar_degenerate(planar_obj, cond):
+    """The planar parameterisation guarantees w.u_hat > -1 only up to rounding: once w.u is very negative
+    (softplus underflow) 1 + w.u_hat is ~0 and the layer is numerically singular on one side of its
+    hyperplane - inherent, documented in DESIGN section 5 ("not defects").  Such cases are inconclusive."""
+    try:
+        g = planar_obj.get_planar(None if cond is None else jnp.asarray(cond))
+        w = np.asarray(g.weight, np.float64)
+        uh = np.asarray(g.get_act_scale(), np.float64)
+        wu = float(np.asarray(g._act_scale, np.float64) @ w)
+        lim = -10.0 if bd.shim.F32 else -30.0
+        return (not np.isfinite(wu)) or wu < lim or abs(1.0 + float(w @ uh)) < (1e-4 if bd.shim.F32 else 1e-9)
+    except Exception:  # noqa: BLE001
+        return False
+
+
+def tree_has_degenerate_planar(node, x, c):
+    tr = bd.Trace()
+    try:
+        bd.ref_eval(node, "fwd", x, c, False, tr)
+    except Exception:  # noqa: BLE001
+        return False
+    return any(n.kind == "Planar" and planar_degenerate(n.obj, cc) for n, d, xx, cc in tr.leaf_calls)
+
+
 def amax(a):
     a = np.asarray(a, np.float64)
     return float(np.max(np.abs(a), initial=0.0))
